@@ -1,7 +1,7 @@
 // znh — verification harness for DemoHn/Zn. Built with -tags verif against /repo's working tree.
 // Protocol: `znh <command>` reads one JSON object per line on stdin and writes one JSON
 // object per line on the original stdout. Program output (显示) is captured per case.
-package main
+package hlib
 
 import (
 	"bufio"
@@ -12,13 +12,13 @@ import (
 	"time"
 )
 
-type handler func(in map[string]interface{}) map[string]interface{}
-
-var commands = map[string]handler{}
+// Handler processes one JSON case.
+type Handler func(in map[string]interface{}) map[string]interface{}
 
 var realStdout *os.File
 
-func main() {
+// Main dispatches os.Args[1] over the given command table.
+func Main(commands map[string]Handler) {
 	if len(os.Args) < 2 {
 		fmt.Fprintln(os.Stderr, "usage: znh <command>")
 		os.Exit(2)
@@ -63,7 +63,7 @@ func caseTimeout(in map[string]interface{}) time.Duration {
 	return 5 * time.Second
 }
 
-func runCase(h handler, in map[string]interface{}) (out map[string]interface{}) {
+func runCase(h Handler, in map[string]interface{}) (out map[string]interface{}) {
 	done := make(chan map[string]interface{}, 1)
 	go func() {
 		defer func() {
